@@ -1,6 +1,7 @@
 import SkyllhModel.Proto
 import SkyllhModel.Model.Grid
 import SkyllhModel.Model.GridObj
+import SkyllhModel.Model.GridR7
 import SkyllhModel.Generated.C15
 open Proto Grid RoundOps
 
@@ -39,6 +40,12 @@ open Proto Grid RoundOps
       prod   <grids `;`>                        -> tuples `;`
       pdfset <names `,`> <grids `;`> <lookups `;`> <readd:i|->  -> ERR | per lookup the registered tuple or MISS, `;` (+ READD-ERR)   lookup = `name=bits&name=bits`
       keyeq  <dict> <dict>                      -> 1 | 0                        dict = `name=bits&…`
+    round 7:
+      ilinrun <grid> <ns> <table> <calls>       -> linear method over an irregular grid: per call `<values>:<grads>` or ERR, `;`-separated
+      gsetx  <objs `;`>                         -> ParameterGridSet.add_extra…: states `;` then ` complete|raised`; obj = `<arr>|<delta>|<dec>|<E or ->` (E: grid setter with [] applied)
+      isetx  <grids `;`>                        -> the same for a set of irregular grids: grids `;` then ` complete|raised`
+      irrp   <grid> <v>                         -> <nearest|ERR> <lower|ERR> <upper|ERR> with the sides / index shift read from the source (Gen.C15)
+      parp   <x1> <dx> <M0> <M1> <M2> <x>       -> <grad> with the gradient factor read from the source
 -/
 
 abbrev Tagged := String × List String
@@ -152,6 +159,40 @@ def parRunTags (G : PGrid Float) (Mf : Option Int → List Float → List Float)
   | _, [] => []
   | cache, (sid, xs) :: rest =>
     parCallTag G Mf ns cache sid xs :: parRunTags G Mf ns (parCall G Mf ns cache sid xs).1 rest
+
+/-- branch of one call of the linear method over an irregular grid -/
+def ilinCallTag (g : List Float) (Mf : Option Int → List Float → List Float) (ns : List Nat)
+    (cache : Option (LinCache Float)) (sid : Option Int) (xs : List Float) : String :=
+  match irrLowerArr g xs with
+  | none => "ilin:lower-raises"
+  | some x0 =>
+    let freshTag :=
+      match irrUpperArr g xs with
+      | none => "ilin:upper-raises"
+      | some x1 =>
+        match linLine Mf ns sid x0 x1 with
+        | none => if (broadcast x0 ns).isNone then "ilin:raise-wrong-length" else "ilin:raise-manifold-length"
+        | some _ =>
+          match cache with
+          | none => "ilin:first-call"
+          | some c => if sid.isNone then "ilin:no-state-id" else if c.sid != sid then "ilin:miss-state-change" else "ilin:miss-other-cell"
+    match cache with
+    | some c => if sid.isSome ∧ c.sid = sid ∧ (c.x0 == x0) = true then "ilin:hit" else freshTag
+    | none => freshTag
+
+def ilinRunTags (g : List Float) (Mf : Option Int → List Float → List Float) (ns : List Nat) :
+    Option (LinCache Float) → List (Option Int × List Float) → List String
+  | _, [] => []
+  | cache, (sid, xs) :: rest =>
+    ilinCallTag g Mf ns cache sid xs :: ilinRunTags g Mf ns (linCallIrr g Mf ns cache sid xs).1 rest
+
+def pSetObj (s : String) : Option (PGObj Float) :=
+  match s.splitOn "|" with
+  | [arr, d, dec, e] =>
+    match PGObj.new (pList pF arr) (pF d) (pI dec) Gen.C15.floatDDecimals Gen.C15.maxDecimals with
+    | some o => if e == "E" then o.step (.setGrid []) else some o
+    | none => none
+  | _ => none
 
 def fObj (o : PGObj Float) : String := s!"{fF o.G.lb}|{fF o.G.delta}|{fListD fF o.grid}"
 
@@ -362,6 +403,28 @@ def answer (line : String) : Tagged :=
   | ["keyeq", d1, d2] =>
       let r := keyEq (pDict d1) (pDict d2)
       (fB r, [if r then "keyEq:equal" else "keyEq:different"])
+  | ["ilinrun", grid, ns, table, calls] =>
+      let st := pStore table
+      let g := pList pF grid
+      let r := linRunIrr g st.get (pList pN ns) none (pCalls calls)
+      (fRes r, dedup (ilinRunTags g st.get (pList pN ns) none (pCalls calls)))
+  | ["gsetx", objs] =>
+      let os := (semis objs).filterMap pSetObj
+      let r := gridSetExtra os
+      (s!"{String.intercalate ";" (r.1.map fObj)} {if r.2 then "complete" else "raised"}",
+       [if r.2 then "gset:complete" else "gset:raised", if os.length = 1 then "gset:D=1" else "gset:D>=2"])
+  | ["isetx", grids] =>
+      let gs := (semis grids).map (pList pF)
+      let r := irrSetExtra gs
+      (s!"{String.intercalate ";" (r.1.map (fListD fF))} {if r.2 then "complete" else "raised"}",
+       [if r.2 then "iset:complete" else "iset:raised"])
+  | ["irrp", grid, v] =>
+      let g := pList pF grid
+      let x := pF v
+      (s!"{fO (irrNearestP Gen.C15.irrNearestSideRight g x)} {fO (irrLowerP Gen.C15.irrLowerSideRight Gen.C15.irrLowerShift g x)} {fO (irrUpperP Gen.C15.irrUpperSideRight g x)}",
+       ["irrp:evaluated"])
+  | ["parp", x1, dx, m0, m1, m2, x] =>
+      (fF (parGradP (ofI (Gen.C15.parGradFactor : Nat)) (pF x1) (pF dx) (pF m0) (pF m1) (pF m2) (pF x)), ["parp:evaluated"])
   | _ => ("bad-op", [])
 
 def answerS (line : String) : String :=
